@@ -27,6 +27,21 @@ CHECKS = {
             "Every call's error/success, resulting phase, staged and current transaction are compared with a reference automaton written from the operations' doc comments; failed calls must leave a byte-identical snapshot. All sequences of a fixed length over a 22-operation canonical alphabet are enumerated after each of 8 prefixes for both participant indices (reported as an enumerated sub-space), longer programs are sampled.",
             "The automaton (harness.go) is the trusted base. Where a doc comment is silent on a precondition (SetProgressing) the error text of the method is taken as documentation.",
             "6/C09"),
+    "C03": ("world", "exploration",
+            "two real clients + local watchers in a synctest bubble on a simulated bus and a strict reference ledger; seeded scenarios x keyed schedules; payouts vs. last commonly enabled state",
+            "Whole-system simulation: real client.Client, real local watcher, simulated bus, strict ledger (verifies signatures, tree shapes, challenge period on the fake clock, pays once). Scenarios draw assets, balances, funding agreement, accepted/rejected payments, sub-channel open/pay/close, final vs. dispute settlement, who settles first; schedules come from keyed delays at every seam and yield hooks. After both sides settled: account = before - agreed funding + balance in the last state both enabled (open sub-channels included), nothing held, conservation after every ledger mutation.",
+            "The strict ledger's contract (DESIGN 3.2) is a design decision; sub-channels only under no-app parents (the payment app forbids the funding update); a Settle call that fails because registered events of the tree have not all arrived is repeated by the driver, as a user would (counted as probe).",
+            "6/C03"),
+    "C04": ("world", "exploration",
+            "as C03 plus an adversary registering outdated signed states at seeded instants (between/during updates, during sub-channel funding); outcome vs. honest client's Enabled stream",
+            "The peer's real client runs the off-chain protocol while an adversary goroutine registers earlier fully signed states from that client's own history at drawn instants; the honest side watches and settles when notified. Oracle: the concluded tree consists of states the honest client enabled, each at least as new as what it had enabled when its machine entered Registered, and its payout is at least its balances there. Two genuine defects are recorded as known findings, identified by history shape; every other violation is reported.",
+            "Ledger latencies are bounded so that five refutation rounds fit into the challenge period (the protocol's own assumption). Refutations do not extend the challenge period in the reference ledger.",
+            "6/C04"),
+    "C06": ("world", "exploration",
+            "two real clients in a synctest bubble; seeded update programs (sequential, concurrent, several channels) x keyed schedules and yield hooks; agreement oracle over Enabled/SigAdded streams; token-configuration liveness",
+            "Programs of up to 15 Channel.Update calls from either side on 1-3 channels with keyed accept/reject decisions; strict runs check success => both enabled the proposed state fully signed, rejection => never enabled, no fork, version gap <= 1, accept => enabled, both Acting + probe update; the token configuration additionally forbids any timeout (a lost reply inside the client). Loss, duplication and short contexts run in a separate relaxed configuration that only checks the fully-signed invariant, as the property says.",
+            "Exactly-once delivery in strict configurations is go-perun's stated assumption about the bus. Same-instant wake-ups are ordered by the Go runtime, not by the seed (measured by the determinism self-test: 0 diverging of 480 runs x 3 executions).",
+            "6/C06"),
 }
 
 NOT_YET = {}
